@@ -55,8 +55,9 @@ pub fn raw_grammar() -> impl Strategy<Value = RawGrammar> {
     (
         0u8..4,
         any::<u16>(),
-        0u8..=(MAX_T as u8),
-        vec(raw_nt(), 1..=MAX_NT),
+        // mostly few terminals / nonterminals; 1 in 6 up to 14 / 12 (two-digit column, kind and method indices)
+        prop_oneof![5 => 0u8..=(MAX_T as u8), 1 => (MAX_T as u8 + 1)..=14u8],
+        prop_oneof![5 => vec(raw_nt(), 1..=MAX_NT), 1 => vec(raw_nt(), (MAX_NT + 1)..=12)],
         any::<u16>(),
         vec((0u8..12, any::<u16>(), any::<u16>(), any::<u16>()), 0..=MAX_EDITS),
         0u8..=4,
@@ -467,8 +468,8 @@ impl RawGrammar {
     pub fn from_bytes(b: &mut Bytes) -> RawGrammar {
         let source = b.u8() & 3;
         let seed_ix = b.u16();
-        let n_terms = (b.u8() as usize % (MAX_T + 1)) as u8;
-        let n_nts = 1 + b.len(MAX_NT - 1);
+        let n_terms = (b.u8() as usize % 15) as u8;
+        let n_nts = 1 + b.len(11);
         let mut nts = vec![];
         for _ in 0..n_nts {
             let is_enum = b.u8() & 1 == 1;
